@@ -42,14 +42,53 @@ type User struct {
 	P     *Pt
 }
 
+// Types outside the Coq model's registry (cases that name them are judged by the property oracle alone).
+
+// Key is not hashable: the slice is one struct level down.
+type Key struct {
+	ID     int
+	Labels Labels
+}
+
+type Labels struct {
+	Names []string
+}
+
+// HKey is hashable.
+type HKey struct {
+	ID   int
+	Name string
+}
+
+// Node can point at itself, through a pointer, a slice, a map and an interface.
+type Node struct {
+	Name string
+	Next *Node
+	Kids []*Node
+	Dict map[string]*Node
+	Any  interface{}
+}
+
+// Rec is a slice type that can hold itself.
+type Rec []Rec
+
 var registry = map[string]reflect.Type{
-	"Pt":   reflect.TypeOf(Pt{}),
-	"User": reflect.TypeOf(User{}),
+	"Pt":     reflect.TypeOf(Pt{}),
+	"User":   reflect.TypeOf(User{}),
+	"Key":    reflect.TypeOf(Key{}),
+	"Labels": reflect.TypeOf(Labels{}),
+	"HKey":   reflect.TypeOf(HKey{}),
+	"Node":   reflect.TypeOf(Node{}),
+	"Rec":    reflect.TypeOf(Rec{}),
 }
 
 func init() {
 	hio.RegisterName("Pt", Pt{})
 	hio.RegisterName("User", User{})
+	hio.RegisterName("Key", Key{})
+	hio.RegisterName("Labels", Labels{})
+	hio.RegisterName("HKey", HKey{})
+	hio.RegisterName("Node", Node{})
 }
 
 var (
